@@ -208,6 +208,9 @@ HAND = [
     ("[CH2:1]=[CH2:2].[H:3][H:4]>>[CH2:1]([H:3])[CH2:2][H:4]", ["C=CC=C.[H][H]"], ["CCCC"]),
     ("[CH3:1][CH3:2].[CH3:3][CH3:4]>>[CH3:1][CH3:3].[CH3:2][CH3:4]", ["CCO.CCN"], ["CCO.CCN"]),
     ("[CH3:1][I:2].[CH3:3][I:4]>>[CH3:1][CH3:3].[I:2][I:4]", ["CCI.CC(C)I"], ["CCC(C)C.II"]),
+    # node labels mirror-symmetric, edge labels not (1-2 becomes double, 2-3 stays single): a rule-symmetry test that
+    # ignores edge attributes would merge the two orientations and lose a reaction (whole-ITS template, core=False)
+    ("[CH2:1][CH:2][CH2:3]>>[CH2:1]=[CH:2][CH2:3]", ["CC(C)CO", "CCCO"], []),
 ]
 OPTS = [{}, {"strategy": "comp"}, {"strategy": "bt"}, {"automorphism": True}, {"explicit_h": False, "implicit_temp": True}]
 
